@@ -261,7 +261,8 @@ def kernelStep (op : List String) (impl : Option (List String)) : Option (String
         [("ig_guards", !kIsExc o),
          ("ig_guards", !(igSentinel x al) || kValIs o (-1)),
          ("ig_guards", igSentinel x al || !(x == 0) || kValIs o 0),
-         ("ig_far_tail_one", igSentinel x al || x == 0 ||
+         ("ig_inf_one", igSentinel x al || x == 0 || !x.isInf || kValIs o 1),
+         ("ig_far_tail_one", igSentinel x al || x == 0 || x.isInf ||
             !(DistKernels.igUseCF x al && DistKernels.igFactor x al g == 0) || kValIs o 1)])
     | none => some ("bad-op", "-")
   | ["k.qchisq", a, b] =>
@@ -285,9 +286,13 @@ def kernelStep (op : List String) (impl : Option (List String)) : Option (String
     match f3? a b c with
     | some (p, al, be) =>
       some (kModel (DistKernels.qBeta (kLg es) (kIb es) p al be) rest, judge fun o =>
-        [("qBeta_raises_iff", !(qBetaRaises p al be) || kIsExc o),
+        [("qBeta_guard_raises", !(qBetaRaises p al be) || kIsExc o),
+         ("qBeta_zero_shape_raises",
+            qBetaRaises p al be || !(0 < p && p < 1 && (al == 0 || be == 0)) || kIsExc o),
          ("qBeta_ends", qBetaRaises p al be || !(p == 0 || p == 1) || kValIs o p),
-         ("qBeta_raises_iff", qBetaRaises p al be || !(al > 0 && be > 0) || !kIsExc o)])
+         -- not a theorem (see `qBeta_raises_iff_partial`): no Newton iterate leaves [0,1], i.e. inside the
+         -- documented domain (positive shapes) `qBeta` does not raise
+         ("qBeta_no_exception_inside_domain", qBetaRaises p al be || !(al > 0 && be > 0) || !kIsExc o)])
     | none => some ("bad-op", "-")
   | ["refl.ibeta", a, b, c] =>
     match f3? a b c with
